@@ -201,6 +201,25 @@ def run(tier: str) -> int:
     rendered = sum(1 for j in jobs if j[1])
     realised = sum(1 for r in res if r[0] == "ok" and r[1]["real"])
     log(f"[C19] A accepted {len(events) - len(rejected)}/{len(events)} calls ({rendered} through both renderers, {realised} via real measurement lists), drift={drift}, {t.s()}s")
+    # L: the same figures asked of ONE live Codebase while files are added / put in again (LiveCodebase.tla); the true
+    # share is that of the entries held at the moment of the read
+    from .. import live
+
+    lm, lres = live.run(tier, wd, "C19")
+    levents, lcase = [], []
+    for hist, exp, pure, r in lres:
+        if r[0] != "ok" or len(r[1]) != len(exp):
+            rep.fail({"clause": "Live:NormalReturn", "history": [list(map(list_or, h)) for h in hist]}, {"kind": "live", "hist": [list(map(list_or, h)) for h in hist], "observed": list(r)})
+            continue
+        for k, (e, o) in enumerate(zip(exp, r[1])):
+            levents.append({"id": len(levents), "p": list(e["profile"]), "exc": "", "fn": o["pct"], "figs": o["figs"], "necessary": o["necessary"]})
+            lcase.append((hist, k, o))
+    lrej = accept(wd, levents, name="c19_live")
+    for k, clause in sorted(lrej.items()):
+        hist, n, o = lcase[k]
+        hh = [list(map(list_or, h)) for h in hist]
+        rep.fail({"clause": "Live:" + clause, "history": hh, "read": n}, {"kind": "live", "hist": hh, "read": n, "p": levents[k]["p"], "observed": o})
+    log(f"[C19] L accepted {len(levents) - len(lrej)}/{len(levents)} reads of a live Codebase (PercentTrace.tla against the share of the entries held), {t.s()}s")
     if m.violated and not rejected:
         raise MachineryError(f"Percent.tla invariant {m.violated} violated but the code satisfies the property on every replayed profile: the model is wrong")
     from .. import tlaps
@@ -216,6 +235,8 @@ def run(tier: str) -> int:
             "bounds": {"exhaustive_total_up_to": b["T"], "rendered_total_up_to": b["render_T"], "random_profiles": len(rnd), "random_total_up_to": 10**7},
             "model": {"module": "Percent.tla", "invariants": invs + ["MonotoneUnmaintainable"], "violated": [list(x) for x in m.violated], "actions": m.coverage},
             "acceptor": {"module": "PercentTrace.tla", "events": len(events), "rejected": len(rejected), "through_renderers": rendered, "via_real_measurements": realised},
+            "live_codebase": {"module": "LiveCodebase.tla", "states": lm.distinct, "histories": len(lres), "reads": len(levents), "rejected": len(lrej), "invariants": live.INVS + live.PROPS,
+                              "bounds": live.BOUNDS[tier]},
             "proved_lemmas": dict(lemmas, theorems=["SumIs100", "InRange", "NonZeroKept"], scope="post-processing of the rounded-up figures, for all naturals (unbounded)"),
             "model_drift": rep.drift, "model_drift_count": drift, "known_findings_hit": sorted(rep.known),
         },
@@ -225,8 +246,44 @@ def run(tier: str) -> int:
     return rc
 
 
+def list_or(x):
+    return list(x) if isinstance(x, (tuple, list)) else x
+
+
+def replay_live(case, path) -> int:
+    from .. import live
+
+    hist = tuple((h[0], tuple(h[1]), h[2]) for h in case["hist"])
+    r = guarded(live.replay_history, hist, 60)
+    print("history:", hist, "observed:", r)
+    if r[0] != "ok":
+        print(f"VIOLATION property={PROP} replay={path}")
+        return 1
+    held = {}
+    evs = []
+    obs = iter(r[1])
+    for pid, lens, rd in hist:
+        held[pid] = lens
+        if rd:
+            o = next(obs)
+            prof = [0, 0, 0, 0]
+            for ls in held.values():
+                for L in ls:
+                    prof[0 if L <= 15 else 1 if L <= 30 else 2 if L <= 60 else 3] += L
+            evs.append({"id": len(evs), "p": prof, "exc": "", "fn": o["pct"], "figs": o["figs"], "necessary": o["necessary"]})
+    rej = accept(workdir(PROP, "replay"), evs, name="replay")
+    if rej:
+        print(f"VIOLATION property={PROP} replay={path}")
+        print("rejected reads:", rej)
+        return 1
+    print("accepted by PercentTrace.tla")
+    return 0
+
+
 def replay(path: str) -> int:
     case = json.loads(open(path).read())
+    if case.get("kind") == "live":
+        return replay_live(case, path)
     p = tuple(case["p"])
     r = guarded(observe, (p, True), 30)
     print("profile:", p, "observed:", r)
